@@ -89,6 +89,29 @@ Lemma selfref_applied_conforms :
      = DList [DStr "Ok"; DList [DStr "1"; DStr "+"; DStr "f"; DStr "("; DStr "2"; DStr ")"]].
 Proof. split; [closed_agree|split; [closed_agree|]]. vm_compute. reflexivity. Qed.
 
+(* the result of ## is a NEW token (6.10.3.3p3), even when its left operand was painted:
+     #define CAT_(a,b) a##b   #define CAT(a,b) CAT_(a,b)   #define X CAT(X,1)   #define X1 5
+     X  ->  5      (the inner X is painted while the argument of CAT is pre-expanded, then pasted to X1,
+                    which is rescanned and replaced; M = S; gcc, clang agree) *)
+Definition w_ppaste :=
+  [def_fun ViaDefine [tIw "CAT_"; tP "("; tI "a"; tP ","; tI "b"; tP ")"; tIw "a"; tO "##"; tI "b"] "CAT_" ["a"; "b"] false
+           [tI "a"; tO "##"; tI "b"];
+   def_fun ViaDefine [tIw "CAT"; tP "("; tI "a"; tP ","; tI "b"; tP ")"; tIw "CAT_"; tP "("; tI "a"; tP ","; tI "b"; tP ")"]
+           "CAT" ["a"; "b"] false [tI "CAT_"; tP "("; tI "a"; tP ","; tI "b"; tP ")"];
+   def_obj ViaDefine [tIw "X"; tIw "CAT"; tP "("; tI "X"; tP ","; tN "1"; tP ")"] "X" [tI "CAT"; tP "("; tI "X"; tP ","; tN "1"; tP ")"];
+   def_obj ViaDefine [tIw "X1"; tNw "5"] "X1" [tN "5"]].
+Lemma painted_paste_conforms :
+  agree w_ppaste [tI "X"]
+  /\ run_M_case w_ppaste [tI "X"] = DList [DStr "Ok"; DList [DStr "5"]].
+Proof. split; [closed_agree|]. vm_compute. reflexivity. Qed.
+(* MacroFunction.replace of CAT_ on a PAINTED left operand: the pasted token is not painted *)
+Lemma paste_result_is_fresh :
+  exists m, macro_from_define [tIw "CAT_"; tP "("; tI "a"; tP ","; tI "b"; tP ")"; tIw "a"; tO "##"; tI "b"] = Ok m /\
+    replace_fun cur_lead cur_cat_fix cur_str_white cur_resub_fix cur_va_fix m
+                [([mkTok KId false "X" false], None); ([tN "1"], None)]
+    = Ok [mkTok KId false "X1" true].
+Proof. eexists. split; vm_compute; reflexivity. Qed.
+
 (* the backstop: a chain a -> aa -> aaa -> ... of max_level object-like macros, the last one -> 1 *)
 Fixpoint rep (n : nat) : string := match n with O => "a" | S k => String "a" (rep k) end.
 Fixpoint chain (i n : nat) : list cmacro :=
